@@ -121,6 +121,11 @@ func (c *client) PushBlob(ctx context.Context, repo string, desc ociregistry.Des
 		return ociregistry.Descriptor{}, err
 	}
 	req.URL = urlWithDigest(location, string(desc.Digest))
+	if req.Body == http.NoBody && desc.Size != 0 {
+		// net/http replaces an empty in-memory reader by NoBody and then
+		// ignores ContentLength, so the mismatch would go unnoticed.
+		return ociregistry.Descriptor{}, fmt.Errorf("blob content is empty but descriptor size is %d: %w", desc.Size, ociregistry.ErrSizeInvalid)
+	}
 	req.ContentLength = desc.Size
 	req.Header.Set("Content-Type", "application/octet-stream")
 	// TODO: per the spec, the content-range header here is unnecessary.
